@@ -6,6 +6,8 @@ import OsyrisProofs.Lemmas.Bmap
 import OsyrisProofs.C02
 import OsyrisProofs.C06
 
+set_option linter.unusedSimpArgs false
+
 namespace Osyris.C09
 open Osyris Osyris.C02
 
@@ -114,5 +116,286 @@ theorem cross3_anticomm (a b) : cross3 a b = (-(cross3 b a).1, -(cross3 b a).2.1
 theorem dot3_cross3_self (a b) : dot3 a (cross3 a b) = 0 := by unfold dot3 cross3; ring
 theorem lagrange (a b) : dot3 (cross3 a b) (cross3 a b) + (dot3 a b) ^ 2 = dot3 a a * dot3 b b := by
   unfold dot3 cross3; ring
+
+
+/-! ### scalar and vector product on the physical quantities -/
+
+theorem bshapeRev_self (s : List Nat) : bshapeRev s s = some s := by
+  induction s with
+  | nil => rfl
+  | cons x xs ih => simp [bshapeRev, ih]
+
+theorem bshape_self (s : List Nat) : bshape s s = some s := by
+  simp [bshape, bshapeRev_self]
+
+theorem getR_bmap2_self (f : Rat → Rat → Rat) (s : List Nat) (A B : List Rat) (i : Nat) (hi : i < shapeSize s) :
+    getR (bmap2 f s s s A B) i = f (getR A i) (getR B i) := by
+  unfold bmap2 getR
+  simp [List.getD_eq_getElem?_getD, hi, bidx]
+
+/-- factor of the unit a product carries: depends on the operands' units only -/
+def mulFactor (ul ur : U) : Rat :=
+  if ur.same ul || ur.convertible ul then ul.factor * ul.factor else ul.factor * ur.factor
+
+theorem mul_unit_factor (T : Tables) (l r x : ArrV) (hk : T.keeps x.dtype = true) (ha : T.applyOp "multiply" = true)
+    (hc : Consistent r.unit l.unit) (hl : l.unit.factor ≠ 0)
+    (h : ArrV.binaryOp T .mul l r = .ok x) : x.unit.factor = mulFactor l.unit r.unit := by
+  unfold ArrV.binaryOp at h
+  simp only [BinOp.strict, Bool.false_eq_true, if_false, bind, Except.bind] at h
+  cases hto : r.to l.unit with
+  | ok p =>
+    obtain ⟨r', s⟩ := p
+    simp only [hto, pure, Except.pure] at h
+    obtain ⟨_, _, hf', _, _⟩ := to_spec r r' l.unit s hc hl hto
+    obtain ⟨out, _, _, hdt, _, hxu⟩ := applyBin_spec T .mul l r' x h
+    rw [hdt] at hk
+    have hcase : (r.unit.same l.unit || r.unit.convertible l.unit) = true := by
+      unfold ArrV.to at hto
+      by_cases hs : r.unit.same l.unit = true
+      · simp [hs]
+      · simp only [hs, if_false, Bool.false_eq_true] at hto
+        by_cases hcv : r.unit.convertible l.unit = true
+        · simp [hcv]
+        · simp [hcv] at hto
+    rw [hxu]
+    simp [wrapUnit, hk, ha, BinOp.npName, BinOp.derivedUnit, U.mul, hf', mulFactor, hcase]
+  | error e =>
+    obtain ⟨he, hd⟩ := to_err r l.unit e hto
+    subst he
+    simp only [hto, pure, Except.pure] at h
+    obtain ⟨out, _, _, hdt, _, hxu⟩ := applyBin_spec T .mul l r x h
+    rw [hdt] at hk
+    have hcase : (r.unit.same l.unit || r.unit.convertible l.unit) = false := by
+      unfold ArrV.to at hto
+      by_cases hs : r.unit.same l.unit = true
+      · simp [hs] at hto
+      · simp only [hs, if_false, Bool.false_eq_true] at hto
+        by_cases hcv : r.unit.convertible l.unit = true
+        · simp [hcv] at hto
+        · simp [hs, hcv]
+    rw [hxu]
+    simp [wrapUnit, hk, ha, BinOp.npName, BinOp.derivedUnit, U.mul, mulFactor, hcase]
+
+/-- **C09 (scalar product)**: for 3-component Vectors whose components share one shape and one
+    unit each, `dot` represents the scalar product of the *physical* vectors, element by element —
+    also when the two operands are in different compatible units — and its unit is the one the
+    values are expressed in. -/
+theorem C09_dot_phys (T : Tables) (a1 a2 a3 b1 b2 b3 x : ArrV) (s : List Nat) (ua ub : U)
+    (hsa : a1.shape = s ∧ a2.shape = s ∧ a3.shape = s) (hsb : b1.shape = s ∧ b2.shape = s ∧ b3.shape = s)
+    (hua : a1.unit = ua ∧ a2.unit = ua ∧ a3.unit = ua) (hub : b1.unit = ub ∧ b2.unit = ub ∧ b3.unit = ub)
+    (hkeep : ∀ d, T.keeps d = true) (ha : T.applyOp "multiply" = true)
+    (hc : Consistent ub ua) (hfa : ua.factor ≠ 0) (hfb : ub.factor ≠ 0)
+    (h : VecV.dot T { comps := [a1, a2, a3] } { comps := [b1, b2, b3] } = .ok x) :
+    x.shape = s ∧ ∀ i, i < shapeSize s →
+      getR x.phys i = dot3 (getR a1.phys i, getR a2.phys i, getR a3.phys i)
+                           (getR b1.phys i, getR b2.phys i, getR b3.phys i) := by
+  unfold VecV.dot at h
+  simp only [mapM2, bind, Except.bind, pure, Except.pure] at h
+  cases h1 : ArrV.binaryOp T .mul a1 b1 with
+  | error e => simp [h1] at h
+  | ok p1 =>
+  cases h2 : ArrV.binaryOp T .mul a2 b2 with
+  | error e => simp [h1, h2] at h
+  | ok p2 =>
+  cases h3 : ArrV.binaryOp T .mul a3 b3 with
+  | error e => simp [h1, h2, h3] at h
+  | ok p3 =>
+  simp only [h1, h2, h3] at h
+  cases h
+  have hmul : ∀ (a b p : ArrV), a.shape = s → b.shape = s → a.unit = ua → b.unit = ub →
+      ArrV.binaryOp T .mul a b = .ok p →
+      p.shape = s ∧ p.unit.factor = mulFactor ua ub ∧
+      ∀ i, i < shapeSize s → getR p.data i * mulFactor ua ub = getR a.phys i * getR b.phys i := by
+    intro a b p hsa' hsb' hua' hub' hp
+    have hcons : Consistent b.unit a.unit := by rw [hua', hub']; exact hc
+    obtain ⟨out, hout, hps, hphys⟩ := C02_mul_div T .mul (Or.inl rfl) a b p (hkeep _) ha hcons
+      (by rw [hua']; exact hfa) (by rw [hub']; exact hfb) hp
+    rw [hsa', hsb', bshape_self] at hout
+    cases hout
+    have hf := mul_unit_factor T a b p (hkeep _) ha hcons (by rw [hua']; exact hfa) hp
+    rw [hua', hub'] at hf
+    refine ⟨hps, hf, ?_⟩
+    intro i hi
+    have := congrArg (fun l => getR l i) hphys
+    rw [phys_getR, hsa', hsb', getR_bmap2_self _ _ _ _ _ hi, hf] at this
+    simpa [BinOp.fn] using this
+  obtain ⟨hs1, hf1, hv1⟩ := hmul a1 b1 p1 hsa.1 hsb.1 hua.1 hub.1 h1
+  obtain ⟨hs2, hf2, hv2⟩ := hmul a2 b2 p2 hsa.2.1 hsb.2.1 hua.2.1 hub.2.1 h2
+  obtain ⟨hs3, hf3, hv3⟩ := hmul a3 b3 p3 hsa.2.2 hsb.2.2 hua.2.2 hub.2.2 h3
+  have hvs : VecV.shape { comps := [a1, a2, a3] } = s := by simp [VecV.shape, hsa.1]
+  refine ⟨hvs, ?_⟩
+  intro i hi
+  rw [phys_getR]
+  simp only [List.foldl_cons, List.foldl_nil, hvs, hs1, hs2, hs3]
+  rw [getR_bmap2_self _ _ _ _ _ hi, getR_bmap2_self _ _ _ _ _ hi, getR_bmap2_self _ _ _ _ _ hi]
+  have hz : getR (List.replicate (shapeSize s) (0 : Rat)) i = 0 := by
+    simp [getR, List.getD_eq_getElem?_getD, hi]
+  rw [hz, hf1]
+  unfold dot3
+  simp only
+  rw [← hv1 i hi, ← hv2 i hi, ← hv3 i hi]
+  ring
+
+
+/-- product of two same-shape Arrays with uniform units, at the level of physical values -/
+theorem mul_phys (T : Tables) (s : List Nat) (ua ub : U) (hkeep : ∀ d, T.keeps d = true) (ha : T.applyOp "multiply" = true)
+    (hc : Consistent ub ua) (hfa : ua.factor ≠ 0) (hfb : ub.factor ≠ 0)
+    (a b p : ArrV) (hsa : a.shape = s) (hsb : b.shape = s) (hua : a.unit = ua) (hub : b.unit = ub)
+    (hp : ArrV.binaryOp T .mul a b = .ok p) :
+    p.shape = s ∧ p.unit = (if ub.same ua || ub.convertible ua then ua.mul ua else ua.mul ub) ∧
+    ∀ i, i < shapeSize s → getR p.phys i = getR a.phys i * getR b.phys i := by
+  have hcons : Consistent b.unit a.unit := by rw [hua, hub]; exact hc
+  obtain ⟨out, hout, hps, hphys⟩ := C02_mul_div T .mul (Or.inl rfl) a b p (hkeep _) ha hcons
+    (by rw [hua]; exact hfa) (by rw [hub]; exact hfb) hp
+  rw [hsa, hsb, bshape_self] at hout
+  cases hout
+  refine ⟨hps, ?_, ?_⟩
+  · -- the unit is determined by the operand units alone
+    unfold ArrV.binaryOp at hp
+    simp only [BinOp.strict, Bool.false_eq_true, if_false, bind, Except.bind] at hp
+    cases hto : b.to a.unit with
+    | ok q =>
+      obtain ⟨b', st⟩ := q
+      simp only [hto, pure, Except.pure] at hp
+      obtain ⟨_, _, _, _, hxu⟩ := applyBin_spec T .mul a b' p hp |>.choose_spec
+      have hb'u : b'.unit = a.unit ∨ (b'.unit = b.unit ∧ b.unit.same a.unit = true) := by
+        unfold ArrV.to at hto
+        by_cases hs : b.unit.same a.unit = true
+        · simp only [hs, if_true] at hto; cases hto; exact Or.inr ⟨rfl, hs⟩
+        · simp only [hs, if_false, Bool.false_eq_true] at hto
+          by_cases hcv : b.unit.convertible a.unit = true
+          · simp only [hcv, Bool.not_true, Bool.false_eq_true, if_false] at hto; cases hto; exact Or.inl rfl
+          · simp [hcv] at hto
+      have hcase : (ub.same ua || ub.convertible ua) = true := by
+        rw [← hua, ← hub]
+        unfold ArrV.to at hto
+        by_cases hs : b.unit.same a.unit = true
+        · simp [hs]
+        · simp only [hs, if_false, Bool.false_eq_true] at hto
+          by_cases hcv : b.unit.convertible a.unit = true
+          · simp [hcv]
+          · simp [hcv] at hto
+      rw [hxu]
+      simp only [wrapUnit, hkeep, ha, BinOp.npName, if_true, BinOp.derivedUnit, hcase]
+      rcases hb'u with h1 | ⟨h1, h2⟩
+      · rw [h1, hua]
+      · -- symbolically equal units of a consistent catalogue are the same unit
+        rw [h1]
+        have hfd := hcons h2
+        have hsym : b.unit.sym = a.unit.sym := by
+          unfold U.same at h2; exact beq_iff_eq.mp h2
+        have hbeq : b.unit = a.unit := by
+          rcases hbu : b.unit with ⟨f1, d1, s1⟩
+          rcases hau : a.unit with ⟨f2, d2, s2⟩
+          rw [hbu, hau] at hfd hsym
+          simp only at hfd hsym
+          rw [hfd.1, hfd.2, hsym]
+        rw [hbeq, hua]
+    | error e =>
+      obtain ⟨he, hd⟩ := to_err b a.unit e hto
+      subst he
+      simp only [hto, pure, Except.pure] at hp
+      obtain ⟨_, _, _, _, hxu⟩ := applyBin_spec T .mul a b p hp |>.choose_spec
+      have hcase : (ub.same ua || ub.convertible ua) = false := by
+        rw [← hua, ← hub]
+        unfold ArrV.to at hto
+        by_cases hs : b.unit.same a.unit = true
+        · simp [hs] at hto
+        · simp only [hs, if_false, Bool.false_eq_true] at hto
+          by_cases hcv : b.unit.convertible a.unit = true
+          · simp [hcv] at hto
+          · simp [hs, hcv]
+      rw [hxu]
+      simp [wrapUnit, hkeep, ha, BinOp.npName, BinOp.derivedUnit, hcase, hua, hub]
+  · intro i hi
+    have := congrArg (fun l => getR l i) hphys
+    rw [hsa, hsb, getR_bmap2_self _ _ _ _ _ hi] at this
+    simpa [BinOp.fn] using this
+
+/-- difference of two same-shape, same-unit Arrays at the level of physical values -/
+theorem sub_phys (T : Tables) (s : List Nat) (u : U) (hkeep : ∀ d, T.keeps d = true) (hf : u.factor ≠ 0)
+    (p q x : ArrV) (hsp : p.shape = s) (hsq : q.shape = s) (hup : p.unit = u) (huq : q.unit = u)
+    (hx : ArrV.binaryOp T .sub p q = .ok x) :
+    x.shape = s ∧ x.unit = u ∧ ∀ i, i < shapeSize s → getR x.phys i = getR p.phys i - getR q.phys i := by
+  have hcons : Consistent q.unit p.unit := by
+    intro _; rw [hup, huq]; exact ⟨rfl, rfl⟩
+  obtain ⟨out, hout, hxs, hxu, hphys⟩ := C02_add_sub T .sub (Or.inr rfl) p q x (hkeep _) hcons (by rw [hup]; exact hf) hx
+  rw [hsp, hsq, bshape_self] at hout
+  cases hout
+  refine ⟨hxs, by rw [hxu, hup], ?_⟩
+  intro i hi
+  have := congrArg (fun l => getR l i) hphys
+  rw [hsp, hsq, getR_bmap2_self _ _ _ _ _ hi] at this
+  simpa [BinOp.fn] using this
+
+
+/-- **C09 (vector product)**: for 3-component Vectors whose components share one shape and one
+    unit each, every component of `cross` represents the corresponding component of the vector
+    product of the physical vectors — also for operands in different compatible units. Together
+    with `cross3_anticomm`, `dot3_cross3_self` and `lagrange` this gives the algebraic laws on
+    the physical quantities. -/
+theorem C09_cross_phys (T : Tables) (a1 a2 a3 b1 b2 b3 : ArrV) (x : VecV) (s : List Nat) (ua ub : U)
+    (hsa : a1.shape = s ∧ a2.shape = s ∧ a3.shape = s) (hsb : b1.shape = s ∧ b2.shape = s ∧ b3.shape = s)
+    (hua : a1.unit = ua ∧ a2.unit = ua ∧ a3.unit = ua) (hub : b1.unit = ub ∧ b2.unit = ub ∧ b3.unit = ub)
+    (hkeep : ∀ d, T.keeps d = true) (ha : T.applyOp "multiply" = true)
+    (hc : Consistent ub ua) (hfa : ua.factor ≠ 0) (hfb : ub.factor ≠ 0)
+    (h : VecV.cross T { comps := [a1, a2, a3] } { comps := [b1, b2, b3] } = .ok x) :
+    ∃ x1 x2 x3 : ArrV, x.comps.map (·.data) = [x1.data, x2.data, x3.data] ∧ x.comps.map (·.unit) = [x1.unit, x2.unit, x3.unit] ∧
+      ∀ i, i < shapeSize s →
+        (getR x1.phys i, getR x2.phys i, getR x3.phys i) =
+          cross3 (getR a1.phys i, getR a2.phys i, getR a3.phys i) (getR b1.phys i, getR b2.phys i, getR b3.phys i) := by
+  unfold VecV.cross at h
+  simp only [bind, Except.bind] at h
+  -- the six products
+  have M := mul_phys T s ua ub hkeep ha hc hfa hfb
+  set pu : U := (if ub.same ua || ub.convertible ua then ua.mul ua else ua.mul ub) with hpu
+  have hpf : pu.factor ≠ 0 := by
+    rw [hpu]; split <;> simp [U.mul, hfa, hfb]
+  cases e1 : ArrV.binaryOp T .mul a2 b3 with
+  | error e => simp [e1] at h
+  | ok m1 =>
+  cases e2 : ArrV.binaryOp T .mul a3 b2 with
+  | error e => simp [e1, e2] at h
+  | ok m2 =>
+  cases e3 : ArrV.binaryOp T .sub m1 m2 with
+  | error e => simp [e1, e2, e3] at h
+  | ok x1 =>
+  cases e4 : ArrV.binaryOp T .mul a3 b1 with
+  | error e => simp [e1, e2, e3, e4] at h
+  | ok m3 =>
+  cases e5 : ArrV.binaryOp T .mul a1 b3 with
+  | error e => simp [e1, e2, e3, e4, e5] at h
+  | ok m4 =>
+  cases e6 : ArrV.binaryOp T .sub m3 m4 with
+  | error e => simp [e1, e2, e3, e4, e5, e6] at h
+  | ok x2 =>
+  cases e7 : ArrV.binaryOp T .mul a1 b2 with
+  | error e => simp [e1, e2, e3, e4, e5, e6, e7] at h
+  | ok m5 =>
+  cases e8 : ArrV.binaryOp T .mul a2 b1 with
+  | error e => simp [e1, e2, e3, e4, e5, e6, e7, e8] at h
+  | ok m6 =>
+  cases e9 : ArrV.binaryOp T .sub m5 m6 with
+  | error e => simp [e1, e2, e3, e4, e5, e6, e7, e8, e9] at h
+  | ok x3 =>
+  simp only [e1, e2, e3, e4, e5, e6, e7, e8, e9] at h
+  have hx := C06.ofArrs_ok [x1, x2, x3] "" x h
+  obtain ⟨s1, u1, v1⟩ := M a2 b3 m1 hsa.2.1 hsb.2.2 hua.2.1 hub.2.2 e1
+  obtain ⟨s2, u2, v2⟩ := M a3 b2 m2 hsa.2.2 hsb.2.1 hua.2.2 hub.2.1 e2
+  obtain ⟨s3, u3, v3⟩ := M a3 b1 m3 hsa.2.2 hsb.1 hua.2.2 hub.1 e4
+  obtain ⟨s4, u4, v4⟩ := M a1 b3 m4 hsa.1 hsb.2.2 hua.1 hub.2.2 e5
+  obtain ⟨s5, u5, v5⟩ := M a1 b2 m5 hsa.1 hsb.2.1 hua.1 hub.2.1 e7
+  obtain ⟨s6, u6, v6⟩ := M a2 b1 m6 hsa.2.1 hsb.1 hua.2.1 hub.1 e8
+  have S := sub_phys T s pu hkeep hpf
+  obtain ⟨_, _, w1⟩ := S m1 m2 x1 s1 s2 u1 u2 e3
+  obtain ⟨_, _, w2⟩ := S m3 m4 x2 s3 s4 u3 u4 e6
+  obtain ⟨_, _, w3⟩ := S m5 m6 x3 s5 s6 u5 u6 e9
+  refine ⟨x1, x2, x3, ?_, ?_, ?_⟩
+  · subst hx; simp [VecV.rename]
+  · subst hx; simp [VecV.rename]
+  · intro i hi
+    rw [w1 i hi, w2 i hi, w3 i hi, v1 i hi, v2 i hi, v3 i hi, v4 i hi, v5 i hi, v6 i hi]
+    simp [cross3]
+
 
 end Osyris.C09
